@@ -82,7 +82,12 @@ def do_replay(cid, path, as_json=False):
         for op in [_tuplify(o) for o in rec.get("context", [])]:
             check.apply(st, op, verify=False)
         if rec["op"] is not None:
-            fails = check.apply(st, _tuplify(rec["op"]), verify=True)
+            try:
+                fails = check.apply(st, _tuplify(rec["op"]), verify=True)
+            except Exception as e:  # same conversion as the explorer
+                import traceback
+
+                fails = [core.Failure(core._opname(_tuplify(rec["op"])), "unexpected-exception", "%s: %s\n%s" % (type(e).__name__, e, traceback.format_exc()[-1200:]))]
     out = [f.as_dict() for f in fails]
     if as_json:
         print("REPLAY-JSON " + json.dumps(out, sort_keys=True))
